@@ -633,6 +633,15 @@ func (n *Node) fastForward() error {
 	resp := n.getBestFastForwardResponse()
 	if resp == nil {
 		n.logger.Error("getBestFastForwardResponse returned nil => Babbling")
+		// The node carries on from what it has (what Bootstrap loaded from the
+		// database, for instance): its head and sequence number must point at
+		// its own last event, otherwise its next event would restart at index
+		// 0 and be refused forever.
+		n.coreLock.Lock()
+		if err := n.core.setHeadAndSeq(); err != nil {
+			n.logger.WithError(err).Error("Setting Head and Seq")
+		}
+		n.coreLock.Unlock()
 		n.transition(_state.Babbling)
 		return fmt.Errorf("getBestFastForwardResponse returned nil")
 	}
